@@ -482,6 +482,8 @@ type Contracts struct {
 	FieldInv map[string]bool // "pkg.Type.field": the field is never nil in an allocated object
 	ArrayInv map[string]bool // array heap key suffix (element type): elements are never nil
 	MapInv   map[string]bool // "pkg|map type": values are never nil
+	FieldFrame  map[string][]string // "pkg.Type[.field]": the only functions that may store to such fields of objects they did not allocate
+	GlobalFrame map[string][]string // package: the only functions that may store to its package-level variables
 	MapFrame map[string][]string // "pkg|map type": the only functions that may write maps of that type they did not allocate
 }
 
@@ -799,15 +801,46 @@ func (c *Contracts) loadFile(path string, pkgName string) error {
 			}
 			c.Ghosts = append(c.Ghosts, &GhostField{f[0], f[1], f[2]})
 			cur = nil
+		case "fieldframe":
+			// fieldframe <pkg.Type>[.<field>] only <func key or prefix*>, ...: every other function stores to such a
+			// field only in an object it allocated itself
+			i := strings.Index(rest, " only")
+			if i < 0 {
+				return fmt.Errorf("%s:%d: fieldframe <pkg.Type[.field]> only <func>, ...", path, j.line)
+			}
+			var fs []string
+			for _, x := range strings.Split(strings.TrimPrefix(rest[i+5:], " "), ",") {
+				if x = strings.TrimSpace(x); x != "" {
+					fs = append(fs, x)
+				}
+			}
+			if c.FieldFrame == nil {
+				c.FieldFrame = map[string][]string{}
+			}
+			c.FieldFrame[strings.TrimSpace(rest[:i])] = fs
+			cur = nil
+		case "globalframe":
+			// globalframe only <func>, ...: package-level variables are written by these functions only
+			var fs []string
+			for _, x := range strings.Split(strings.TrimPrefix(strings.TrimSpace(rest), "only"), ",") {
+				if x = strings.TrimSpace(x); x != "" {
+					fs = append(fs, x)
+				}
+			}
+			if c.GlobalFrame == nil {
+				c.GlobalFrame = map[string][]string{}
+			}
+			c.GlobalFrame[pkgName] = fs
+			cur = nil
 		case "mapframe":
 			// mapframe <map type> only <func key>, <func key>...: every other function writes such a map only if it
 			// allocated the map itself (frame obligation at every map update)
-			i := strings.Index(rest, " only ")
+			i := strings.Index(rest+" ", " only ")
 			if i < 0 {
 				return fmt.Errorf("%s:%d: mapframe <map type> only <func>, ...", path, j.line)
 			}
 			var fs []string
-			for _, x := range strings.Split(rest[i+6:], ",") {
+			for _, x := range strings.Split(strings.TrimPrefix((rest + " ")[i+5:], " "), ",") {
 				if x = strings.TrimSpace(x); x != "" {
 					fs = append(fs, x)
 				}
